@@ -310,7 +310,7 @@ def main():
     q = 0
     for tname in tabs_b:
         bins, ms = T[tname], mats_of[tname]
-        for symm in (True, False):
+        for symm in ((True, False) if B.thorough or tname == tabs_b[0] else (True,)):
             for r in ((1, 2, 3) if B.thorough and tname in ("fixed10-short-last", "one-bin-chroms") else (1, 2)):
                 for combo in itertools.product(range(5), repeat=r):
                     q += 1
@@ -321,7 +321,9 @@ def main():
         ms = mats_of[tname]
         for symm in (True, False):
             for bf in forms:
-                for inp in ("df", "dict", "chunks"):
+                for ii, inp in enumerate(("df", "dict", "chunks")):
+                    if not B.thorough and (ii + forms.index(bf) + symm) % 3 == 0:
+                        continue   # quick: two of the three input forms per combination, rotating
                     q += 1
                     cells = [("a", ms[2][0], ms[2][1]), ("b", ms[0][0], ms[0][1]), ("cell 1", ms[3][0], ms[3][1])]
                     R.one_file(tname, bins, symm, cells, bf, "given" if q % 2 else "reversed", inp, extra_pix=(q % 5 == 0))
@@ -360,9 +362,11 @@ def main():
             R.one_file(tname, bins, symm, cells, forms[it % 4], "given", ("df", "dict", "chunks")[it % 3])
     B.bound = (("thorough: " if B.thorough else "quick: ") + f"{len(T)} common bin tables; matrix sweep: ALL singles and ordered "
                "pairs" + (" and triples (2 tables)" if B.thorough else "") + f" of the 5 C01 matrices (empty, diagonal, dense, sparse, "
-               f"corners) on {len(tabs_b)} tables x 2 storage modes; table sweep: every table x 2 modes x 4 bin-table forms "
+               f"corners) on {len(tabs_b)} tables x " + ("2 storage modes" if B.thorough else "storage modes (both / symmetric only)") +
+               "; table sweep: every table x 2 modes x 4 bin-table forms "
                "(single plain, single with extra column, per-cell dict with differing extra column, per-cell dict with "
-               "differing SETS of extra columns) x 3 pixel input forms (DataFrame, dict of arrays, iterator of chunks incl. "
+               "differing SETS of extra columns) x " + ("3" if B.thorough else "2 of 3 (rotating)") +
+               " pixel input forms (DataFrame, dict of arrays, iterator of chunks incl. "
                "the empty iterator), every 5th with an extra pixel value column; name sweep: ALL non-empty subsets of <= 3 "
                "of {a, b, 'cell 1', x/y, z/y} x bin forms x both dict insertion orders"
                + ("; 400 seeded random files (1-4 random names, random matrices)" if B.thorough else ""))
